@@ -20,7 +20,13 @@ import (
 // ---------------------------------------------------------------------------
 // PRNG: splitmix64
 
-type Rng struct{ s uint64 }
+type Rng struct {
+	s uint64
+	// leftover octets of the last word, used by Read only, so that Read is a proper byte stream:
+	// the same octets come out however the reads are chunked
+	rbuf [8]byte
+	rn   int
+}
 
 func NewRng(parts ...uint64) *Rng {
 	r := &Rng{s: 0x9e3779b97f4a7c15}
@@ -68,7 +74,18 @@ func (r *Rng) Pick(xs ...int) int { return xs[r.Intn(len(xs))] }
 
 // Read makes *Rng an io.Reader (deterministic random source).
 func (r *Rng) Read(p []byte) (int, error) {
-	copy(p, r.Bytes(len(p)))
+	for i := range p {
+		if r.rn == 0 {
+			v := r.U64()
+			for j := 0; j < 8; j++ {
+				r.rbuf[j] = byte(v)
+				v >>= 8
+			}
+			r.rn = 8
+		}
+		p[i] = r.rbuf[8-r.rn]
+		r.rn--
+	}
 	return len(p), nil
 }
 
